@@ -13,7 +13,7 @@ import os
 import shlex
 
 from ..core import env, par, shrink
-from ..core.result import Failure, Report
+from ..core.result import Failure, Report, robust
 
 ID = "C11"
 
@@ -162,11 +162,53 @@ def _work(arg):
     out = []
     seen = set()
     for a0, groups in fails:
-        f = mk_failure(a0, groups)
+        f = robust(mk_failure, {"argv0": a0, "argv": [x for g in groups for x in g]}, a0, groups)
         if f and f.key() not in seen:
             seen.add(f.key())
             out.append(f)
     return n, len(fails), out, len(outcomes)
+
+
+HIST = [["-DA=b c"], ["-DA=b", "c"], ["-I", "/p"], ["-I/p"], ["-isystem", "/s"], ["-DQ"], [], ["-D", "A=b", "c"], ["-include", "f.h", "-I", "/p"], ["-I/p", "-isystem", "/s"]]
+
+
+def _history(arg):
+    """Sequences of parse_args calls in ONE process: each call must give what the reference extractor says for
+    its own vector, whatever was parsed before (no result may be remembered under a coarser key)."""
+    seqs, argv0 = arg
+    out = []
+    n = 0
+    from codebasin import config
+    for seq in seqs:
+        config._compilers = None
+        for k, i in enumerate(seq):
+            n += 1
+            v = HIST[i]
+            got = observe(argv0, v)
+            d, inc, sysd, f = _hist_expected(v)
+            imp = IMPLICIT.get(os.path.basename(argv0), [])
+            if got[0] == "EXC" or got[0] != d + imp or sorted(got[1]) != sorted(inc + sysd) or got[2] != f:
+                out.append(Failure("history", {"argv0": argv0, "calls": [HIST[j] for j in seq[:k + 1]]},
+                                   expected={"defines": d + imp, "include_paths": inc + sysd, "include_files": f}, observed=got if got[0] == "EXC" else list(got)))
+                break
+    return n, out[:5]
+
+
+def _hist_expected(v):
+    d, inc, sysd, f = [], [], [], []
+    i = 0
+    while i < len(v):
+        a = v[i]
+        for flag, dest in (("-isystem", sysd), ("-include", f), ("-D", d), ("-I", inc)):
+            if a == flag:
+                i += 1
+                dest.append(v[i])
+                break
+            if a.startswith(flag) and a != flag and flag in ("-D", "-I"):
+                dest.append(a[len(flag):])
+                break
+        i += 1
+    return d, inc, sysd, f
 
 
 def run(tier):
@@ -190,11 +232,16 @@ def run(tier):
     res = par.pmap(_work, jobs)
     for r in res:
         rep.add(r[2])
-    n = sum(r[0] for r in res)
+    hl = 2 if tier == "quick" else 3
+    hseqs = [s_ for k in range(1, hl + 1) for s_ in itertools.product(range(len(HIST)), repeat=k)]
+    hres = par.pmap(_history, [(hseqs[i::8], a0) for a0 in argv0s for i in range(8)])
+    for r in hres:
+        rep.add(r[1])
+    n = sum(r[0] for r in res) + sum(r[0] for r in hres)
     rep.coverage.update({
         "evaluations": n, "distinct_nontrivial": sum(r[3] for r in res),
         "rule": desc + "; each also rendered as a shell-quoted command string; distinct = distinct expected extractions",
-        "groups": len(alpha), "failing_cases": sum(r[1] for r in res),
+        "groups": len(alpha), "failing_cases": sum(r[1] for r in res), "call_histories": len(hseqs) * len(argv0s),
         "samples": [{"argv0": "mycc", "argv": ["-DA=b c", "-ccbin", "g++", "-I", "rel/p"], "expected": expected([["-DA=b c"], ["-ccbin", "g++"], ["-I", "rel/p"]])}],
         "exhaustive": True,
     })
